@@ -244,7 +244,10 @@ def element_level_oracle(run):
                                  version=v, cls='ST', ec=ec, input=s, exc=repr(ex))
                 # delimiters changed AFTER construction (MSH-1/MSH-2 assigned directly): leaves are escaped with
                 # the set the message declares now
-                if v >= '2.3.1' and k and k % 3 == 0:
+                # (the two assignments pass through an intermediate set - new MSH-1 with the old MSH-2 - which the library
+                #  rightly refuses when it holds a character twice: only sets whose field separator is none of the default
+                #  MSH-2 characters are taken through this history)
+                if v >= '2.3.1' and k and k % 3 == 0 and f not in '^~\\&#':
                     try:
                         m3 = Message('ADT_A01', version=v)
                         m3.msh.msh_7 = '20200101'
